@@ -131,7 +131,7 @@ class History:
         self.flag_must = False
         self.defs = {}             # lib index -> ModuleDef (kept alive)
         self.keep = []
-        self.searchdir = False
+        self.searchdir = bool(plan.get("relative"))      # register by bare file name; a search_dir/search_path op makes it findable
 
     # ------------------------------------------------------------ helpers
     def v(self, prop, cls, key, msg):
@@ -330,6 +330,7 @@ class History:
         if lookups:
             self._check_lookups(real, rc, rcol, mc, mcol)
         self._check_ranges(prop, real, owners)
+        self._check_fptr_boundaries(prop)
         if sweep:
             self._sweep(real)
         return real, raw
@@ -444,6 +445,27 @@ class History:
                     # another loaded library may carry the same library name only if generated so; names are unique per universe
                     self.v(prop, "entity-outside-range", {"op": "request_module", "kind": "outside-range"}, "function %d of %r lies outside its module's range [%d,%d)" % (i, lib, a, b))
                     break
+
+    def _fptr_expected(self, i):
+        for li, d in self.defs.items():
+            if d.next_index > d.first_index and d.first_index <= i < d.next_index:
+                off = i - d.first_index
+                if 0 <= off < d.num_fptrs:
+                    return 0x1000 + off * 16
+        return None
+
+    def _check_fptr_boundaries(self, prop):
+        """Index-to-module attribution at the edges of every module's range (each module owns exactly its own range)."""
+        for li, d in sorted(self.defs.items()):
+            if d.next_index <= d.first_index:
+                continue
+            for i in (d.first_index - 1, d.first_index, d.first_index + 1, d.next_index - 1, d.next_index):
+                p = self.call("interrogate_wrapper_pointer", i)
+                want = self._fptr_expected(i)
+                if (p or None) != want:
+                    self.v(prop if prop != "C12" else "C20", "fptr-boundary", {"op": "interrogate_wrapper_pointer", "kind": "module-boundary"},
+                           "interrogate_wrapper_pointer(%d) = %r at the edge of lib%d's range [%d,%d); expected %r" % (i, p, li, d.first_index, d.next_index, want))
+                    return
 
     # ------------------------------------------------------------ C20: totality sweep
     def _sweep(self, real):
@@ -576,6 +598,20 @@ class History:
             k = op["op"]
             if k == "search_dir":
                 self.call("interrogate_add_search_directory", self.root.encode())
+                self.searchdir = True
+            elif k == "search_path":
+                # a search path of several components with the scratch directory in the middle
+                parts = []
+                for i in range(op.get("before", 1)):
+                    d = os.path.join(self.root, "empty-b%d" % i)
+                    os.makedirs(d, exist_ok=True)
+                    parts.append(d)
+                parts.append(self.root)
+                for i in range(op.get("after", 1)):
+                    d = os.path.join(self.root, "empty-a%d" % i)
+                    os.makedirs(d, exist_ok=True)
+                    parts.append(d)
+                self.call("interrogate_add_search_path", ":".join(parts).encode())
                 self.searchdir = True
             elif k == "reg_db":
                 self.reg_db(op["lib"])
